@@ -195,8 +195,8 @@ class MonInversion(object):
                 if H.need_facility:
                     # the higher-priority task needs a (worker, facility) pair: inversion if a facility that
                     # could serve it is still FREE after the pass and the worker given to L can operate it
-                    if any(x.solo_working for x in snap.aw[H]):
-                        continue
+                    if any(x.solo_working for x in snap.aw[H]) or any(x.solo_working for x in snap.af[H]):
+                        continue     # H works with a solo worker or a solo facility: it accepts nobody else
                     for f in M.usable_free_facilities(project, snap, tr, H, self.touched):
                         for w in new:
                             tr.counters["C11.contention_pairs_with_facility"] += 1
